@@ -209,14 +209,36 @@ impl TypeCollector {
     ) -> Vec<CommandContext> {
         let type_resolver = analyzer.get_type_resolver();
 
+        // Different commands may derive the same TypeScript names (get_user / getUser)
+        let mut used_function_names = std::collections::HashSet::new();
+        let mut used_type_names = std::collections::HashSet::new();
+
         commands
             .iter()
             .map(|cmd| {
-                CommandContext::new(config).from_command_info(cmd, visitor, &|rust_type: &str| {
-                    type_resolver.borrow_mut().parse_type_structure(rust_type)
-                })
+                let mut context = CommandContext::new(config).from_command_info(
+                    cmd,
+                    visitor,
+                    &|rust_type: &str| type_resolver.borrow_mut().parse_type_structure(rust_type),
+                );
+                context.ts_function_name =
+                    Self::unused_name(&context.ts_function_name, &mut used_function_names);
+                context.ts_type_name =
+                    Self::unused_name(&context.ts_type_name, &mut used_type_names);
+                context
             })
             .collect()
+    }
+
+    /// `name`, or `name2`, `name3`, ... if it has been handed out before
+    fn unused_name(name: &str, used: &mut std::collections::HashSet<String>) -> String {
+        let mut candidate = name.to_string();
+        let mut suffix = 1;
+        while !used.insert(candidate.clone()) {
+            suffix += 1;
+            candidate = format!("{}{}", name, suffix);
+        }
+        candidate
     }
 
     /// Create EventContext instances from EventInfo using the provided visitor
